@@ -59,6 +59,12 @@ prop("C09", True,
      note="Trusted: go/ssa constant folding, regexp/syntax; protojson escapes newlines inside strings; the three codecs invert their own Marshal. NOT decided: equality of the decoded model, well-formedness of JSON, idempotence of post-processing, determinism of the encoders (C19).",
      design="DESIGN.md §3 C09")
 
+prop("C03", True,
+     technique="set agreement between generated lexer actions and the token pump's bypass switch (SSA constants), shape check of the width function, per-branch pairing of stack operations and synthetic tokens",
+     text="Thin claim — decides structural necessary conditions of layout independence in the hand-written indentation lexer: the set of token types whose generated action records a line break (10 today) is contained in the set the token pump returns unchanged while a line break is pending, and the whole-line comment test returns before (dominates) indentation synthesis; the function whose result is stored to lexerState.spaces is additive — starts at 0 and only ever adds constants selected by equality tests of the current character, with exactly {space:1, tab:4}; every Push on the indent stack queues one INDENT and every Pop one DEDENT in the same branch. The validated 'tab advances to the next multiple of 4' mutation is reported, as are dropped bypass tokens and unpaired stack operations.",
+     note="Trusted: go/ssa; the generated lexer corresponds to SyslLexer.g4. NOT decided: that two layouts of one specification compile to equal models, acceptance preservation, anything about the ANTLR-side token rules.",
+     design="DESIGN.md §3 C03")
+
 for i in range(1, 21):
     pid = "C%02d" % i
     if pid not in P:
